@@ -1,4 +1,5 @@
 import Svgbob.Proofs.Lines
+import Svgbob.Proofs.TrailingBlanks
 /-!
 # C17 — line endings and invisible trailing whitespace do not change the output
 
@@ -25,6 +26,26 @@ theorem body_trailing_blank_lines (env : Env) (body : List Char) (h : '\r' ∉ b
   unfold bodyFront
   obtain ⟨j, hj⟩ := lines_append_nls body h k
   rw [hj, rowsFront_append_empty]
+
+/-- **Trailing blanks of the rows.** Invisible characters at the end of a row — no quote, white
+space for the cell map, one buffer column each (spaces and tabs are) — change neither the cells nor
+the quoted texts: the quote parser finds the same segments (`lineParse_append`), the blanked row
+only gets the blanks appended, and the cell map skips them. Stated for the rows of the drawn part,
+each with its own trailing run. -/
+theorem rows_trailing_blanks (env : Env) (rows : List (List Char × List Char))
+    (h : ∀ rt ∈ rows, Trail env rt.2) :
+    rowsFront env 0 (rows.map fun rt => rt.1 ++ rt.2) = rowsFront env 0 (rows.map (·.1)) :=
+  rowsFront_trailing env 0 rows h
+
+/-- spaces and tabs are such characters in every environment in which they are white space and
+occupy one column (the real `unicode-width` gives a space width 1 and a tab no width) -/
+theorem blanks_and_tabs_are_trailing (env : Env) (hs : env.isWs ' ' = true) (ht : env.isWs '\t' = true)
+    (ws : (env.width ' ').getD 1 - 1 = 0) (wt : (env.width '\t').getD 1 - 1 = 0) (t : List Char)
+    (h : ∀ c ∈ t, c = ' ' ∨ c = '\t') : Trail env t := by
+  intro c hc
+  rcases h c hc with rfl | rfl
+  · exact ⟨by decide, hs, ws⟩
+  · exact ⟨by decide, ht, wt⟩
 
 /-- **Legend header and entry separator accept CRLF.** `new_line` consumes `\r\n` as one line
 terminator, so after the header the entry parser starts at the first entry. -/
